@@ -1616,8 +1616,10 @@ def install(I):
     N("reversed", _reversed)
 
     def _enumerate(I_, a, k):
-        from .interp import ConcIter
+        from .interp import ConcIter, EnumArr
         start = k.get("start", a[1] if len(a) > 1 else 0)
+        if isinstance(a[0], SymArr) and not isinstance(simp(a[0].shape[0]), int):
+            return EnumArr(a[0], start)
         return ConcIter([(start + i, x) for i, x in enumerate(I_.iter_concrete(a[0]))])
     N("enumerate", _enumerate)
 
